@@ -149,7 +149,59 @@ func c13Exec(b *core.B, how string, variant int, f func(ctx *plush.Context) (str
 	return o, true
 }
 
+// Values of distinct struct types that carry the same name (declared inside
+// different functions) or no name at all, with the same fields at other positions.
+func c13RowA() interface{} {
+	type row struct{ Hidden, ID, Name string }
+	return row{"hA", "idA", "nameA"}
+}
+
+func c13RowB() interface{} {
+	type row struct {
+		Name string
+		Pad  int
+		ID   string
+	}
+	return &row{"nameB", 0, "idB"}
+}
+
+// c13SameNamedTypes: what a template renders depends on its text and the data,
+// not on which other types were rendered earlier in the process.
+func c13SameNamedTypes(b *core.B) {
+	vals := []struct {
+		v    interface{}
+		want string
+	}{
+		{c13RowA(), "nameA/idA"}, {c13RowB(), "nameB/idB"}, {struct{ A, Name, ID string }{"a", "anon1", "i1"}, "anon1/i1"}, {struct{ ID, Name, A string }{"i2", "anon2", "a"}, "anon2/i2"},
+	}
+	const text = `<%= r.Name %>/<%= r.ID %>`
+	for _, order := range [][]int{{0, 1, 0, 1}, {1, 0, 1}, {2, 3, 2, 0, 3, 1}, {3, 2, 1, 0}} {
+		if !b.Begin(fmt.Sprintf("same-named struct types, order %v: %s", order, text)) {
+			continue
+		}
+		b.NonTrivialStr("same-named-types", fmt.Sprint(order))
+		b.Count("same-named-struct-types")
+		for step, k := range order {
+			ctx := plush.NewContext()
+			ctx.Set("r", vals[k].v)
+			ctx.Set("rows", []interface{}{vals[k].v})
+			res := render(b, text+`|<%= rows[0].Name %>`, ctx)
+			if res.Pan != nil {
+				break
+			}
+			want := vals[k].want + "|" + strings.Split(vals[k].want, "/")[0]
+			if res.Err != nil || res.Out != want {
+				b.Violate("depends-on-earlier-renders|same-named-struct-types", fmt.Sprintf("step %d of order %v (%T): want %q, got %s", step, order, vals[k].v, want, res))
+				break
+			}
+		}
+	}
+}
+
 func c13Run(b *core.B) {
+	if b.Batch == 0 {
+		c13SameNamedTypes(b)
+	}
 	r := b.Rng(1)
 	nProg, reps := 2000, 30
 	if b.Tier == core.Thorough {
